@@ -525,7 +525,18 @@ fn ddmin<T: Clone>(items: Vec<T>, budget: &mut u32, mut test: impl FnMut(&[T]) -
     cur
 }
 
+thread_local! {
+    /// the minimiser stops trying after 25 s (a time budget on how small the replay file gets,
+    /// never on a verdict): set when a minimisation starts
+    static MIN_DEADLINE: std::cell::Cell<Option<std::time::Instant>> = std::cell::Cell::new(None);
+}
+
 fn still_fails(case: &Case, class: &str) -> bool {
+    if let Some(d) = MIN_DEADLINE.with(|c| c.get()) {
+        if std::time::Instant::now() > d {
+            return false;
+        }
+    }
     let ex = execute(case);
     match judge(case, &ex) {
         Ok(v) => v.iter().any(|x| x.class == class),
@@ -535,6 +546,13 @@ fn still_fails(case: &Case, class: &str) -> bool {
 
 /// Shrink a violating case while the same violation class persists (bounded).
 pub fn minimise(case: &Case, class: &str) -> Case {
+    MIN_DEADLINE.with(|c| c.set(Some(std::time::Instant::now() + std::time::Duration::from_secs(25))));
+    let r = minimise_inner(case, class);
+    MIN_DEADLINE.with(|c| c.set(None));
+    r
+}
+
+fn minimise_inner(case: &Case, class: &str) -> Case {
     let mut best = case.clone();
     let mut budget: u32 = 250;
     // 1. simplify the environment
